@@ -257,7 +257,7 @@ struct ImplModeFactory {
                                     MemMoveInALoop>::type MemMoveType;
   typedef
       typename std::conditional<IsMemMovePossible && std::is_same<InputType, OutputType>::value &&
-                                    !std::is_rvalue_reference<typename std::iterator_traits<InputIt>::reference>::value,
+                                    std::is_lvalue_reference<typename std::iterator_traits<InputIt>::reference>::value,
                                 MemMoveType, Default>::type type;
 };
 }  // namespace memory_details
